@@ -23,7 +23,7 @@ import (
 	"time"
 
 	"verifsim/core"
-	_ "verifsim/props/c13"
+	_ "verifsim/props/all"
 )
 
 type propCfg struct {
